@@ -279,7 +279,7 @@ Proof.
     unfold cache_lookup. rewrite HO, Hres.
     destruct cc; try apply Hcompile.
     destruct (f_get f); try apply Hcompile.
-    destruct (kv_get (o_key (w t)) (cs_res st)) as [[so se outs| |]|] eqn:Eg; try apply Hcompile.
+    destruct (kv_get (o_key (w t)) (cs_res st)) as [[so se outs| | | |]|] eqn:Eg; try apply Hcompile.
     (* a hit: the entry is the unit's own successful result *)
     apply kv_get_In in Eg. destruct (HI t) as [_ Ires].
     destruct (Ires _ _ _ Eg) as (Hcs & Hw & -> & -> & ->).
@@ -368,7 +368,7 @@ Proof.
   destruct G as (Hres & Hro1 & _). rewrite Hro in Hro1.
   pose proof (fun mt => compile_clean_stores (w t) st1 pp mt HS Hro1 Hcs Hca) as Hmiss. cbv zeta in Hmiss.
   unfold cache_lookup; simpl f_get; simpl f_outdir_ok. rewrite Hres.
-  destruct (kv_get (o_key (w t)) (cs_res st)) as [[so se outs| |]|] eqn:Eg;
+  destruct (kv_get (o_key (w t)) (cs_res st)) as [[so se outs| | | |]|] eqn:Eg;
     try (apply Hmiss; discriminate).
   simpl. rewrite Hres. split; [|exact Hro1].
   pose proof (kv_get_In _ _ _ Eg) as Hin. destruct (HI t) as [_ Ires].
@@ -420,7 +420,8 @@ Qed.
 Lemma damage_res_Inv w d k st : Inv w st -> Inv w (damage_res d k st).
 Proof.
   intros HI t. destruct (HI t) as [Ipp Ires]. unfold damage_res.
-  destruct (kv_get k (cs_res st)) as [[so se outs| |]|]; try (split; assumption);
+  destruct (kv_get k (cs_res st)) as [e|]; [|split; assumption].
+  destruct e as [so se outs| | | |]; try (split; assumption);
     (split; [exact Ipp|]); simpl; intros so' se' outs' Hin; apply kv_set_In in Hin;
     (destruct Hin as [[_ Hv]|Hin]; [destruct d; discriminate | eapply Ires; eauto]).
 Qed.
@@ -430,7 +431,8 @@ Proof.
   intros HI t. destruct (HI t) as [Ipp Ires]. unfold damage_pp.
   destruct (kv_get k (cs_pp st)); [|split; assumption].
   split; [|exact Ires]. simpl. intros pk k' m Hpk Hin Hm.
-  destruct d; try (apply kv_set_In in Hin; destruct Hin as [[_ Hv]|Hin]; [discriminate | eapply Ipp; eauto]).
+  destruct d; try (apply kv_set_In in Hin; destruct Hin as [[_ Hv]|Hin]; [discriminate | eapply Ipp; eauto]);
+    try (eapply Ipp; eauto; fail).
   apply kv_del_In in Hin. eapply Ipp; eauto.
 Qed.
 
